@@ -486,6 +486,18 @@ let iv_contains_val refr (i : z interval) (v : rnum) : bool =
     (ca < 0 || (ca = 0 && not ao)) && (cb > 0 || (cb = 0 && not bo))
 let set_contains_val refr s v = List.exists (fun i -> iv_contains_val refr i v) s
 
+(* ---------------------------------------------------------------- the VERIFIED acceptance test (coq/RootCheck.v, extracted)
+   Accept is proved to imply exactness (Properties_C11.v); Reject / NotApplicable never decide alone: the drivers then
+   use the unverified reference above, and a case where the checker rejects what the reference accepts is reported
+   as an inconsistency of the model side. *)
+let check_fuel = nat_of_int 400
+let asg_of (c : case) : (n * rnum) list = List.map (fun (v, r) -> (n_of_int v, r)) c.assign
+let verified_roots (c : case) (rs : rnum list) : verdict =
+  accept_roots check_fuel (asg_of c) c.y c.poly rs
+
+(* counters reported through the evidence (the mdriver lives for the whole run) *)
+let n_verified = ref 0 and n_reference_only = ref 0
+
 let guard (f : unit -> string) : string =
   try f () with
   | Fuel -> "FUEL"
